@@ -45,7 +45,7 @@ ASSUMPTIONS = [
 ]
 PROBES = ['self_union', 'self_difference', 'top_dropped', 'top_kept', 'top_refused', 'duplicate_operand',
           'none_target', 'markers_carried', 'inplace_after_copy', 'role_without_colon', 'reentrancy_reported',
-          'empty_graph']
+          'empty_graph', 'triple_list_edited_in_place']
 
 VARS = ['a', 'b', 'c']
 ROLES = [':instance', ':instance', ':ARG0', 'ARG1', ':mod', 'instance', ':']
@@ -87,13 +87,18 @@ def plan(rng, idx, tier):
     ops = []
     r = rng.sub('ops')
     for k in range(1 + (r.randrange(10) if not r.chance(0.05) else 10 + r.randrange(15))):
-        kind = r.weighted([('or', 3), ('ior', 3), ('sub', 3), ('isub', 3), ('set_top', 2), ('construct', 1)])
+        kind = r.weighted([('or', 3), ('ior', 3), ('sub', 3), ('isub', 3), ('set_top', 2), ('construct', 1),
+                           ('edit_triple', 1)])
         op = {'op': kind, 'i': r.randrange(4), 'j': r.randrange(4), 'dst': r.randrange(4),
               'observe': r.chance(0.6)}
         if r.chance(0.15):
             op['j'] = op['i']
         if kind == 'set_top':
             op['v'] = r.pick(VARS + [None, 'zz', 'x'])
+        if kind == 'edit_triple':
+            # user code rewrites one entry of the public triple list in place (same list, same length)
+            op['k'] = r.randrange(1000)
+            op['src'] = r.pick(VARS + ['d'])
         if kind == 'construct':
             op['triples'] = gen_triples(r, r.randrange(5))
             op['top'] = r.pick(VARS) if r.chance(0.4) else None
@@ -346,7 +351,10 @@ def execute(trace):
             elif name in ('or', 'ior'):
                 a, b = refs[i], refs[j]
                 nr, added, common = ref_union(a, b)
-                unconstrained = common
+                # markers of triples of the left operand for which the right operand holds an epigraph entry are
+                # not constrained: common triples, and stale entries the right operand kept for triples it no longer
+                # contains (the pinned union takes over the right operand's whole marker map, appendix B)
+                unconstrained = set(common) | {t for t in a.triples if t in heap[j].epidata}
                 if i == j:
                     res.hit('probe.self_union')
                 if any(t in b.markers for t in added):
@@ -400,6 +408,23 @@ def execute(trace):
                     nr.meta = refs[i].meta
                     refs[i] = nr
                     target_slot = i
+            elif name == 'edit_triple':
+                if refs[i].triples:
+                    k_ = op.get('k', 0) % len(refs[i].triples)
+                    old = refs[i].triples[k_]
+                    new_t = (op.get('src', 'a'), old[1], old[2])
+                    heap[i].triples[k_] = new_t
+                    refs[i].triples[k_] = new_t
+                    if old not in refs[i].triples:
+                        # a careful edit: the epigraph stays in step with the triples (no stale entry is left behind,
+                        # which later unions would otherwise carry around - a history the statement does not cover)
+                        heap[i].epidata.pop(old, None)
+                        refs[i].markers.pop(old, None)
+                    # the rewritten triple may revive an epigraph entry that an earlier removal left behind
+                    # (entries of removed triples are unconstrained): adopt what the graph holds for it
+                    unconstrained = {new_t}
+                    res.hit('probe.triple_list_edited_in_place')
+                target_slot = i
             elif name == 'set_top':
                 v = op.get('v')
                 r = refs[i]
